@@ -124,6 +124,19 @@ def Env.applyHandler (env : Env) (h : Heap) (hn : Handler) (cur arg : Val) : Acc
   | .off => .beyond
   | .named n => env.hsem n h cur arg
 
+/-- what the logging classes record when the handler runs -/
+def Env.handlerLog (env : Env) (h : Heap) (hn : Handler) (cur arg : Val) : List Nat :=
+  match hn with
+  | .getattr => attrLog env.k h cur arg
+  | .getitem => itemLog env.k h cur
+  | .seqItem => seqLog env.k h cur arg
+  | .table a =>
+    attrLog env.k h cur (.str a) ++
+    (match pyGetattr2 env.k h cur (.str a) with
+     | .ok d => itemLog env.k h d
+     | _ => [])
+  | _ => []
+
 inductive TErr2 where
   | pae (idx : Nat) (e : PyExc)      -- PathAccessError(e, path, idx)
   | raised (e : PyExc)               -- an exception the branch's `except` does not name
@@ -136,48 +149,82 @@ structure Out2 where
   res : Except TErr2 Val
   touched : List (Nat × Val)
   reg : Reg
+  log : List Nat := []             -- what the access-logging objects recorded, in order
   deriving Repr
 
 /-- the primitive a branch of `_t_eval` runs: the outcome and the registry after it;
     `none`: no such branch / no handler -/
 inductive Prim where
-  | ran (a : Acc) (r : Reg)
+  | ran (a : Acc) (lg : List Nat) (r : Reg)
   | unregistered (r : Reg)
   | noBranch
 
 def Env.prim (env : Env) (h : Heap) (kind : String) (cur arg : Val) (r : Reg) : Prim :=
-  if kind == "getattr" then .ran (pyGetattr2 env.k h cur arg) r
-  else if kind == "getitem" then .ran (pyGetitem2 env.k h cur arg) r
+  if kind == "getattr" then .ran (pyGetattr2 env.k h cur arg) (attrLog env.k h cur arg) r
+  else if kind == "getitem" then .ran (pyGetitem2 env.k h cur arg) (itemLog env.k h cur) r
   else if kind == "handler" then
     match r.getHandler env.k.ct (cur.clsName h) with
-    | (some hn, r') => .ran (env.applyHandler h hn cur arg) r'
+    | (some hn, r') => .ran (env.applyHandler h hn cur arg) (env.handlerLog h hn cur arg) r'
     | (none, r') => .unregistered r'
   else .noBranch
 
 def tLoop2 (env : Env) (h : Heap) (flat : List Val) (i : Nat) (cur : Val)
-    (tr : List (Nat × Val)) (r : Reg) : Out2 :=
+    (tr : List (Nat × Val)) (r : Reg) (lg : List Nat) : Out2 :=
   if _hlt : i < flat.length then
     match flat[i]?, flat[i+1]? with
     | some (.str op), some arg =>
       match env.dispatchOf op with
       | some (kind, caught) =>
         match env.prim h kind cur arg r with
-        | .ran (.ok v) r' => tLoop2 env h flat (i + 2) v (tr ++ [(i / 2, cur)]) r'
-        | .ran (.err e) r' =>
-          if env.isKind caught e then ⟨.error (.pae (i / 2) e), tr ++ [(i / 2, cur)], r'⟩
-          else ⟨.error (.raised e), tr ++ [(i / 2, cur)], r'⟩
-        | .ran .beyond r' => ⟨.error .beyond, tr ++ [(i / 2, cur)], r'⟩
-        | .unregistered r' => ⟨.error .unregistered, tr, r'⟩
-        | .noBranch => ⟨.error .badSpec, tr, r⟩
-      | none => ⟨.error .badSpec, tr, r⟩
-    | _, _ => ⟨.error .badSpec, tr, r⟩
-  else ⟨.ok cur, tr, r⟩
+        | .ran (.ok v) l r' => tLoop2 env h flat (i + 2) v (tr ++ [(i / 2, cur)]) r' (lg ++ l)
+        | .ran (.err e) l r' =>
+          if env.isKind caught e then ⟨.error (.pae (i / 2) e), tr ++ [(i / 2, cur)], r', lg ++ l⟩
+          else ⟨.error (.raised e), tr ++ [(i / 2, cur)], r', lg ++ l⟩
+        | .ran .beyond l r' => ⟨.error .beyond, tr ++ [(i / 2, cur)], r', lg ++ l⟩
+        | .unregistered r' => ⟨.error .unregistered, tr, r', lg⟩
+        | .noBranch => ⟨.error .badSpec, tr, r, lg⟩
+      | none => ⟨.error .badSpec, tr, r, lg⟩
+    | _, _ => ⟨.error .badSpec, tr, r, lg⟩
+  else ⟨.ok cur, tr, r, lg⟩
 termination_by flat.length - i
 
 def tEval2 (env : Env) (h : Heap) (flat : List Val) (target : Val) (r : Reg) : Out2 :=
   match flat with
-  | .sent "T" :: _ => tLoop2 env h flat 1 target [] r
-  | _ => ⟨.error .badSpec, [], r⟩
+  | .sent "T" :: _ => tLoop2 env h flat 1 target [] r []
+  | _ => ⟨.error .badSpec, [], r, []⟩
+
+/-! ### building the flat tuple: `Path(...)` with nested Paths, `Path.from_text` -/
+
+/-- a part given to `Path(...)`: a plain value (→ `'P'`), a T-rooted expression
+    given by its `(op, arg)` steps, or another Path -/
+inductive Part2 where
+  | seg (v : Val)
+  | t (steps : List (String × Val))
+  | path (parts : List Part2)
+
+mutual
+/-- what `Path.__init__` appends for one part: a Path is replaced by its `path_t`,
+    a T contributes its own ops two by two, anything else one `'P'` step -/
+def stepsOfPart2 : Part2 → List (String × Val)
+  | .seg v => [("P", v)]
+  | .t st => st
+  | .path ps => stepsOfParts2 ps
+def stepsOfParts2 : List Part2 → List (String × Val)
+  | [] => []
+  | p :: r => stepsOfPart2 p ++ stepsOfParts2 r
+end
+
+/-- `Path(*parts).path_t.__ops__` -/
+def flatOfParts2 (parts : List Part2) : List Val :=
+  Val.sent "T" :: flatOfSteps (stepsOfParts2 parts)
+
+/-- `Path.from_text(text)`: split on `'.'`; with `PATH_STAR` the segments `*` / `**`
+    become wildcard steps, without it they are plain segments -/
+def partsOfTextS (star : Bool) (text : List Char) : List Part2 :=
+  (splitDot text).map (fun seg =>
+    if star && seg = ['*'] then Part2.t [("x", Val.none)]
+    else if star && seg = ['*', '*'] then Part2.t [("X", Val.none)]
+    else Part2.seg (Val.str (String.ofList seg)))
 
 /-! ### histories: calls of one Glommer, in order -/
 
